@@ -114,7 +114,7 @@ def _frames_check(out):
             if t is None:
                 C["frames_unmatched"] = C.get("frames_unmatched", 0) + 1
                 continue
-            mon.check_state(J, t, {"frame": int(key), "step": step})
+            mon.check_state(J, t, {"frame": int(key), "step": step}, psi=np.array(g["psi"]), mu=np.array(g["mu"]))
             C["frames_checked"] += 1
 
 
